@@ -1009,9 +1009,9 @@ impl<'a> Drop for ZipFile<'a> {
                 match reader.read(&mut buffer) {
                     Ok(0) => break,
                     Ok(_) => (),
-                    Err(e) => {
-                        panic!("Could not consume all of the output of the current ZipFile: {e:?}")
-                    }
+                    // A destructor cannot report the failure and must not panic; the
+                    // next read on the underlying stream will surface it.
+                    Err(_) => break,
                 }
             }
         }
